@@ -126,6 +126,12 @@ func NewEnabledCheckConfig(
 	)
 }
 
+// NewDisabledCheckConfig returns a new disabled CheckConfig, that is a CheckConfig
+// for which Disabled() returns true. See CheckConfig.Disabled().
+func NewDisabledCheckConfig(fileVersion FileVersion) CheckConfig {
+	return newDisabledCheckConfig(fileVersion)
+}
+
 // NewEnabledCheckConfigForUseIDsAndCategories returns a new enabled CheckConfig for only the use IDs and categories.
 func NewEnabledCheckConfigForUseIDsAndCategories(
 	fileVersion FileVersion,
